@@ -396,6 +396,18 @@ def run_property(spec: PropertySpec, tier: str, seed: int) -> int:
                               'traceback': traceback.format_exc()[-3000:], 'tier': tier, 'seed': seed},
                              expected='no exception', observed=type(e).__name__,
                              note='re-run the check with the same seed to reproduce')
+            elif isinstance(e, (IndexError, ValueError, TypeError, KeyError, AttributeError)) and not isinstance(e, LeanError):
+                # the harness could not make sense of what the implementation handed back (wrong shape, missing column, other type):
+                # the correspondence is broken at this point; reported as such (with the traceback as the replay) rather than as exit 2
+                hs = [f for f in tb if '/harness/' in f.filename]
+                last = hs[-1] if hs else tb[-1]
+                outcome = Outcome()
+                outcome.evaluations = 1
+                outcome.fail('correspondence', 'implementation-output-not-interpretable',
+                             {'exception': f'{type(e).__name__}: {str(e)[:300]}', 'where': f'{last.filename}:{last.lineno} in {last.name}',
+                              'traceback': traceback.format_exc()[-3000:], 'tier': tier, 'seed': seed},
+                             expected='a result of the documented shape / type', observed=type(e).__name__,
+                             note='re-run the check with the same seed to reproduce')
             else:
                 crashed = traceback.format_exc()
     else:
@@ -418,7 +430,8 @@ def run_property(spec: PropertySpec, tier: str, seed: int) -> int:
             prop_fail = [f for f in outcome.failures if f.kind == 'property']
             corr_only = [f for f in outcome.failures if f.kind == 'correspondence']
         except Exception:
-            crashed = traceback.format_exc()
+            if not any(f.clause == 'implementation-output-not-interpretable' for f in corr_only):
+                crashed = traceback.format_exc()
 
     # 5. classification against the committed known findings
     known_hit: dict[str, int] = {}
